@@ -89,6 +89,29 @@ Record rcase := { rc_rules : list rule; rc_addr : str; rc_out : str }.
 Definition rcase_model_ok (c : rcase) : bool := str_eqb (dial_redirect (rc_rules c) (rc_addr c)) (rc_out c).
 Definition rcase_prop_ok (c : rcase) : bool := str_eqb (spec_redirect (rc_rules c) (rc_addr c)) (rc_out c).
 
+(* ---------- D2b: forwarder.Dialer.DialContext itself (real NewDialer with the real redirect; only the socket
+   function is scripted): rules, Retry.Attempts (any integer), the answers of the socket layer to the successive
+   attempts (any pattern), the address; observed: every address handed to the socket layer and whether a
+   connection came back *)
+Record dcase := { dc_rules : list rule; dc_attempts : Z; dc_outcomes : list bool; dc_addr : str;
+                  dc_dials : list str; dc_ok : bool }.
+Definition dcase_attempts (c : dcase) : nat := Z.to_nat (dc_attempts c).   (* <= 0 -> 0 -> one attempt *)
+Fixpoint strs_eqb (x y : list str) : bool :=
+  match x, y with
+  | [], [] => true
+  | a :: x', c :: y' => str_eqb a c && strs_eqb x' y'
+  | _, _ => false
+  end.
+Definition dcase_model_ok (c : dcase) : bool :=
+  let r := dialer_dial (dc_rules c) (dcase_attempts c) (dc_outcomes c) (dc_addr c) in
+  strs_eqb (fst r) (dc_dials c) && Bool.eqb (match snd r with Some _ => true | None => false end) (dc_ok c).
+(* every attempt goes to the once-mapped address; at least one and at most `attempts` attempts; success iff an
+   attempt connected *)
+Definition dcase_prop_ok (c : dcase) : bool :=
+  let a := spec_redirect (dc_rules c) (dc_addr c) in
+  let r := tries (effective_attempts (dcase_attempts c)) (dc_outcomes c) in
+  strs_eqb (dc_dials c) (repeat a (fst r)) && Bool.eqb (dc_ok c) (snd r).
+
 (* ---------- configurations as first-order data: the oracles' answers for the one host of the case *)
 Record cfgd := {
   d_upfunc : option presult;          (* UpstreamProxyFunc returning this constant *)
